@@ -48,6 +48,7 @@ var zeroes = map[string]string{
 	"strfmt.ISBN10":     "strfmt.ISBN10(\"\")",
 	"strfmt.ISBN13":     "strfmt.ISBN13(\"\")",
 	"strfmt.MAC":        "strfmt.MAC(\"\")",
+	"strfmt.CIDR":       "strfmt.CIDR(\"\")",
 	"strfmt.ObjectId":   "strfmt.ObjectId{}",
 	"strfmt.Password":   "strfmt.Password(\"\")",
 	"strfmt.RGBColor":   "strfmt.RGBColor(\"rgb(0,0,0)\")",
@@ -155,6 +156,7 @@ var formatMapping = map[string]map[string]string{
 		"isbn10":       "strfmt.ISBN10",
 		"isbn13":       "strfmt.ISBN13",
 		"mac":          "strfmt.MAC",
+		"cidr":         "strfmt.CIDR",
 		"bsonobjectid": "strfmt.ObjectId",
 		"objectid":     "strfmt.ObjectId",
 		"ObjectId":     "strfmt.ObjectId", // NOTE: does it work with uppercase?
@@ -212,6 +214,7 @@ var customFormatters = map[string]struct{}{
 	"strfmt.ISBN10":     {},
 	"strfmt.ISBN13":     {},
 	"strfmt.MAC":        {},
+	"strfmt.CIDR":       {},
 	"strfmt.ObjectId":   {},
 	"strfmt.Password":   {},
 	"strfmt.RGBColor":   {},
